@@ -121,6 +121,7 @@ def check(model: Model, run: Run) -> None:
     constructed_flush(model, run)
     # ---- (f) one implementation of the integer content octets; readers and sub-readers cannot be refused ----
     hand_built_integer_content(model, run, mr)
+    integer_contents_are_signed(model, run)
     reader_construction_total(model, run, mr)
     from ..readerrules import lemma_peek_is_pure
     lemma_peek_is_pure(model, run)
@@ -521,6 +522,44 @@ def _compatible(ft, pt) -> bool:
     def is_intlike(t_):
         return t_ in ints or (t_[0] == "inst" and t_[1].endswith("TypeTagNumber"))
     return is_intlike(ft) and is_intlike(pt)
+
+
+def integer_contents_are_signed(model: Model, run: Run, rule: str = "S11-integer-contents-read-as-twos-complement") -> None:
+    """S11: the content octets of INTEGER and ENUMERATED are two's complement, and the writer packs both with the same
+    routine.  On the read side the ENUMERATED helper therefore hands over to the INTEGER helper (or decodes the same way),
+    and any `int.from_bytes` applied to content octets says signed=True.  An unsigned read turns every negative value the
+    writer can emit (and every value the peer sends with the top bit set) into a different number."""
+    from ..anchors import asn1 as asn1_anchors, reachable
+    an = asn1_anchors(model)
+    hi = an.reader_helper.get("read_integer")
+    he = an.reader_helper.get("read_enumerated")
+    if hi is None or he is None:
+        raise AnalysisError("read_integer / read_enumerated helpers not identified")
+    header_side = {f.qualname for f in an.header_family} | {an.validate.qualname}
+    n = 0
+    for entry in (hi, he):
+        for f in reachable(model, entry):
+            if f.qualname in header_side or isinstance(f.node, ast.Lambda):
+                continue
+            for x in walk_no_nested(f.node):
+                if isinstance(x, ast.Call) and norm(x.func) == "int.from_bytes":
+                    n += 1
+                    signed = any(k.arg == "signed" and isinstance(k.value, ast.Constant) and k.value.value is True for k in x.keywords) or \
+                        (len(x.args) >= 3 and isinstance(x.args[2], ast.Constant) and x.args[2].value is True)
+                    run.ob(rule, signed, {"function": f.name, "call": norm(x)[:60]})
+                    if not signed:
+                        run.fail(Finding(rule, f.qualname, norm(x)[:80], f"{f.name} reads content octets with `{norm(x)[:60]}` (unsigned): a value whose first content octet has the top bit set "
+                                         "is negative in BER, and is what the writer emits for negative numbers; it decodes to a different number", model.loc(f.module, x)))
+    # sibling agreement: the writer packs ENUMERATED through the INTEGER routine; the reader must mirror that or be seen to decode signed
+    wi, we = an.writer_helper.get("write_integer"), an.writer_helper.get("write_enumerated")
+    writer_shares = wi is not None and we is not None and (we is wi or wi in reachable(model, we))
+    reader_shares = he is hi or hi in reachable(model, he)
+    own_signed = any(isinstance(x, ast.Call) and norm(x.func) == "int.from_bytes" for f in reachable(model, he) if f.qualname not in header_side for x in walk_no_nested(f.node))
+    ok = reader_shares or own_signed or not writer_shares
+    if not ok:
+        raise AnalysisError(f"{he.name} neither hands over to {hi.name} nor uses int.from_bytes: a hand-written ENUMERATED decoder is outside what S11 can judge")
+    run.ob(rule, True, {"enumerated_reader_shares_integer_reader": reader_shares, "writer_shares": writer_shares})
+    run.coverage["int_from_bytes_on_contents"] = n
 
 
 def hand_built_integer_content(model: Model, run: Run, mr) -> None:
